@@ -5,14 +5,14 @@ From Coq Require Import Lia.
 
 Local Open Scope Z_scope.
 
-Definition tok_post (src : str) (x : st) (r : pres) : Prop :=
+Definition tok_post (src : ctx) (x : st) (r : pres) : Prop :=
   match r with
   | PTok t x' => wf src x' /\ (off x < off x')%nat /\ t_line t = line x /\ t_col t = col x
   | _ => True
   end.
 
 (* a state reachable from x by consuming at least m raw characters *)
-Definition after (src : str) (x : st) (m : nat) (x' : st) : Prop := wf src x' /\ (off x + m <= off x')%nat.
+Definition after (src : ctx) (x : st) (m : nat) (x' : st) : Prop := wf src x' /\ (off x + m <= off x')%nat.
 
 Lemma after_le src x m m' x' : after src x m x' -> (m' <= m)%nat -> after src x m' x'.
 Proof. intros [H1 H2] H. split; [assumption|lia]. Qed.
@@ -63,7 +63,7 @@ Proof.
   pose proof (pop1_after src false true x Hw) as H.
   destruct (pop1 false true x) as [c x'|x'|]; [| |exact I].
   - destruct (is_nl c).
-    + apply after_add_err. destruct Hw as [pre Hpre]. split; [exists pre; exact Hpre|cbn; lia].
+    + apply after_add_err. destruct H as [Hw' _]. split; [now apply wf_restore|cbn; lia].
     + destruct (str_eqb c [39%N]); [eapply after_le; [exact H|lia]|].
       destruct H as [Hw' Ho]. specialize (IH l0 c0 (value ++ c) (S chars) x' Hw').
       destruct (char_loop fuel l0 c0 (value ++ c) (S chars) x'); [|exact I].
@@ -481,7 +481,7 @@ Lemma peek1_splice2 r : peek1 (63%N :: 63%N :: 47%N :: 10%N :: r) = Some ([92%N]
 Proof. reflexivity. Qed.
 
 
-Definition step_post (src : str) (x : st) (r : stepres) : Prop :=
+Definition step_post (src : ctx) (x : st) (r : stepres) : Prop :=
   match r with
   | StepEnd => rest x = []
   | StepItem i x' =>
@@ -496,7 +496,7 @@ Proof.
   destruct (rest x) as [|c r] eqn:Er.
   - pose proof (try_parsers_post src uw ud parsers x Hw) as H.
     destruct (try_parsers uw ud parsers x) as [|t x'|e] eqn:E; cbn; [exact Er| |exact I].
-    destruct H as [H1 [H2 [H3 H4]]]. repeat split; assumption.
+    destruct H as [H1 [H2 [H3 H4]]]. split; [exact H1|]. repeat split; assumption.
   - destruct (at_splice (c :: r)) eqn:Es.
     + destruct (at_splice_cases _ Es) as [[r' E]|[r' E]]; rewrite E.
       * rewrite peek1_splice1. cbn [step_post item_lo item_hi].
@@ -522,5 +522,5 @@ Proof.
           unfold pos_after. cbn [fold_left]. rewrite (adv_plainc _ _ _ Pc). reflexivity. }
         rewrite Hx. split; [apply wf_raw_advance; [now apply wf_add_err|cbn; rewrite Er; cbn; lia]|].
         rewrite off_raw_advance. cbn. repeat split; lia.
-      * cbn. destruct H as [H1 [H2 [H3 H4]]]. repeat split; assumption.
+      * cbn. destruct H as [H1 [H2 [H3 H4]]]. split; [exact H1|]. repeat split; assumption.
 Qed.
